@@ -43,20 +43,20 @@ def _pop_array_accesses(lhs, **kwargs):
 
     possible_accesses = _array_indices_to_accesses(masked_indices, new_shape)
     for access in possible_accesses:
-        constants_map.pop((lhs.basename, access), None)
+        constants_map.pop((lhs.basename.lower(), access), None)
 
 
 def update_constants_map(lhs, value, constants_map):
-    constants_map[(lhs.basename, ())] = value
+    constants_map[(lhs.basename.lower(), ())] = value
 
 
 def invalidate_constants_map(lhs, constants_map):
     if isinstance(lhs, sym.Array):
-        for access in tuple(key for key in constants_map if key[0] == lhs.basename):
-            constants_map.pop((lhs.basename, access), None)
+        for access in tuple(key for key in constants_map if key[0] == lhs.basename.lower()):
+            constants_map.pop((lhs.basename.lower(), access), None)
         return
 
-    constants_map.pop((lhs.basename, ()), None)
+    constants_map.pop((lhs.basename.lower(), ()), None)
 
 
 def _separate_literals(children):
@@ -88,7 +88,7 @@ class ConstantPropagationMapper(SimplifyMapper):
 
     def map_array(self, expr, *args, **kwargs):
         constants_map = kwargs.get('constants_map', {})
-        return constants_map.get((expr.basename, getattr(expr, 'dimensions', ())), expr)
+        return constants_map.get((expr.basename.lower(), getattr(expr, 'dimensions', ())), expr)
 
     def map_quotient(self, expr, *args, **kwargs):
         """ Always force-evaluate integer-division """
@@ -176,7 +176,7 @@ class ConstantPropagationTransformer(Transformer):
         with dict_override(kwargs, {
                 'within_loop': True, 'constants_map': deepcopy(constants_map)
         }):
-            kwargs['constants_map'].pop((o.variable.basename, ()), None)
+            kwargs['constants_map'].pop((o.variable.basename.lower(), ()), None)
             new_body = self.visit(o.body, **kwargs)
 
         lhs_vars = {o.variable}
@@ -223,13 +223,13 @@ class ConstantPropagationTransformer(Transformer):
 
             if isinstance(symbol, sym.Array):
                 declarations_map.update({
-                    (symbol.basename, indices): index_initial_elements(indices, symbol.initial)
+                    (symbol.basename.lower(), indices): index_initial_elements(indices, symbol.initial)
                     for indices in _array_indices_to_accesses(
                         [sym.RangeIndex((None, None, None))] * len(symbol.shape), symbol.shape
                     )
                 })
             else:
-                declarations_map[(symbol.basename, ())] = symbol.initial
+                declarations_map[(symbol.basename.lower(), ())] = symbol.initial
         return declarations_map
 
 
